@@ -154,6 +154,9 @@ def tlc(pid, module, cfg, workers=4, timeout_s=600, simulate=None, depth=None, s
         if "POSTCONDITION" in line or "Postcondition" in line or "post-condition" in line.lower():
             if "violated" in line.lower() or "false" in line.lower():
                 r.post_ok = False
+    # TLC's workers print CASE lines in a scheduling-dependent order: a canonical order makes every later, seed-driven
+    # choice among the cases reproducible
+    r.cases.sort(key=lambda c: json.dumps(c, sort_keys=True))
     r.log = "\n".join(other)
     if r.rc == 124:
         r.error = "TLC timed out after %ds" % timeout_s
